@@ -145,7 +145,13 @@ def rowOf {E : Type} (o : Op E) (log : Nat) (prune : Bool) : Row :=
 
 /-- `ingest_operation`, parameterised by the log validation used (`…Orig` / repaired).
     Every error path returns before anything is written (validation precedes `begin()`; after
-    `begin()` a `?` drops the permit, which rolls back). `Ok(false)` = already stored. -/
+    `begin()` a `?` drops the permit, which rolls back). `Ok(false)` = already stored.
+    The function is ONE atomic step: dedup lookup, latest-entry lookup, log validation and insert
+    all happen inside the store's serialised transaction (`has_operation_tx`, `get_latest_entry_tx`
+    between `begin()` and `commit()`), so concurrent ingests are a sequence of such steps in the
+    order in which they obtain the FIFO transaction permit. The ingest-order source ties
+    (`c03_extracted_ingest_order`, `c05_extracted_sources`) pin the `_tx` calls between `begin` and
+    `commit`; the harness' concurrent family checks it on a multi-connection store. -/
 def ingestWith {E : Type}
     (vpb : Option Row → Header E → Bool → Except OpErr Unit)
     (c : ExtCodec E) (tbl : SigTable) (s : Store) (o : Op E) (log topic : Nat) (prune : Bool) :
